@@ -77,7 +77,17 @@ type retcWorld struct {
 
 var retcPoisoned = false
 
-func retcStepWait() time.Duration { return 20 * time.Second }
+// how long a resumed call may take to reach its next pause point before the replay calls it a stall (the unchanged
+// code never waits: the driver does not take a step that would).  Stalls are capped so that changed code that makes
+// every line stall cannot make a run take hours: 20 s for the first three, 2 s afterwards, none after ten.
+var retcStalls = 0
+
+func retcStepWait() time.Duration {
+	if retcStalls >= 3 {
+		return 2 * time.Second
+	}
+	return 20 * time.Second
+}
 
 func (w *retcWorld) hook(point string) {
 	if w.free.Load() {
@@ -322,13 +332,13 @@ func execRetMmc(line string) Result {
 		for _, th := range w.th {
 			close(th.resume)
 		}
-		deadline := time.After(10 * time.Second)
+		deadline := time.Now().Add(10 * time.Second) // for all threads together
 		for _, th := range w.th {
 			for !th.done {
 				select {
 				case ev := <-th.events:
 					th.done = ev.done
-				case <-deadline:
+				case <-time.After(time.Until(deadline)):
 					retcPoisoned = true
 					th.done = true
 				}
@@ -338,6 +348,9 @@ func execRetMmc(line string) Result {
 	mmeta.VerifC14Pause = nil
 	res := Result{}
 	if w.stalled != "" {
+		if retcStalls++; retcStalls >= 10 {
+			retcPoisoned = true
+		}
 		res.Out = "stall " + w.stalled + " tr=" + strings.Join(w.trace, ",")
 		return res
 	}
@@ -495,10 +508,10 @@ func execRetMmc(line string) Result {
 }
 
 var retMmcFixed = []string{
-	"mmc 3 1 1 0 p,p,a0,p,a0,p",            // the rotation tries to get in after the scan and after the directory removal
+	"mmc 3 1 1 0 p,p,a0,p,a0,p",             // the rotation tries to get in after the scan and after the directory removal
 	"mmc 3 1,2 2 1 a0,p,a0,p,r0,p,a1,p,p,p", // a rotation holds the lock when the pass arrives
-	"mmc 2 1,2 1 1 p,p,p,a0,r0,p,p",        // nothing preserved: the file is removed, the rotation re-creates it
-	"mmc 4 - 1 0 p,a0,p,a0,p",              // nothing to remove: no rewrite
+	"mmc 2 1,2 1 1 p,p,p,a0,r0,p,p",         // nothing preserved: the file is removed, the rotation re-creates it
+	"mmc 4 - 1 0 p,a0,p,a0,p",               // nothing to remove: no rewrite
 	"mmc 1 7 0 0 -",
 }
 
